@@ -84,15 +84,17 @@ inline void subsets(size_t m, size_t k, std::vector<std::vector<size_t>> &out) {
 }
 
 // ------------------------------------------------------------------ deviations
-enum DevKind { D_NONE = 0, D_BUILTIN, D_WRONG_SHARE, D_FALSE_COMPLAINT, D_SILENT, D_BC_ALTER, D_KINDS };
-inline const char *dev_name(int k) { static const char *n[] = {"none", "builtin", "wrong_share", "false_complaint", "silent", "bc_alter"}; return (k >= 0 && k < D_KINDS) ? n[k] : "?"; }
+enum DevKind { D_NONE = 0, D_BUILTIN, D_WRONG_SHARE, D_FALSE_COMPLAINT, D_SILENT, D_BC_ALTER, D_BAD_REVEAL, D_KINDS };
+inline const char *dev_name(int k) { static const char *n[] = {"none", "builtin", "wrong_share", "false_complaint", "silent", "bc_alter", "bad_reveal"}; return (k >= 0 && k < D_KINDS) ? n[k] : "?"; }
 struct Dev {
 	int kind = D_NONE;
 	int phase = -1;      // phase the deviation acts in (-1: every phase)
 	size_t victim = 0;   // wrong_share: recipient; false_complaint: accused party
 	long k = 0;          // wrong_share: index of the message on the link; false_complaint: before the k-th end marker (1-based);
-	                     // silent: after k broadcasts of the phase; bc_alter: the k-th broadcast of the phase (1-based)
-	std::string json() const { return J().kv("kind", dev_name(kind)).kv("phase", phase).kv("victim", (long long)victim).kv("k", (long long)k).str(); }
+	                     // silent: after k broadcasts of the phase; bc_alter: the k-th broadcast of the phase (1-based);
+	                     // bad_reveal: wrong first share to the victim AND the k-th broadcast (the published share) altered
+	long k2 = 1;         // false_complaint: how often the complaint value is inserted (2 = duplicated complaint)
+	std::string json() const { return J().kv("kind", dev_name(kind)).kv("phase", phase).kv("victim", (long long)victim).kv("k", (long long)k).kv("k2", (long long)k2).str(); }
 };
 
 struct World;
@@ -105,9 +107,9 @@ public:
 	CachinKursawePetzoldShoupRBC *rbc = nullptr;
 	int cur_phase = 0;
 	long nb = 0, nend = 0, link_cnt = 0;           // per phase: own broadcasts, own end markers, messages to the victim
-	long total_bc = 0;
+	long total_bc = 0; long rreq[2] = {0, 0};      // r-request messages sent per phase (payload awaited after the ready quorum)
 	bool nesting = false, injected = false, repl = false, fired = false;
-	Z repl_id, repl_s, repl_val;
+	Z repl_id, repl_s, repl_val, last_id, last_s; bool have_last = false;
 	DevUnicast(size_t n_, size_t j_, Net *nt, World *w, bool bc, time_t to)
 		: SimUnicast(n_, j_, nt, aio_scheduler_roundrobin, to), W(w), is_bc(bc) {}
 	void enter_phase(int ph) { cur_phase = ph; nb = nend = link_cnt = 0; injected = false; repl = false; }
@@ -137,8 +139,8 @@ struct World {
 };
 
 inline bool DevUnicast::Send(mpz_srcptr m, const size_t i, time_t to) {
-	if (!is_bc && dev.kind == D_WRONG_SHARE && active() && i == dev.victim) {
-		if (link_cnt++ == dev.k) {
+	if (!is_bc && (dev.kind == D_WRONG_SHARE || dev.kind == D_BAD_REVEAL) && active() && i == dev.victim) {
+		if (link_cnt++ == (dev.kind == D_BAD_REVEAL ? 0 : dev.k)) {
 			Z w(m); mpz_add_ui(w.v, w.v, 1); mpz_mod(w.v, w.v, q.v); fired = true;
 			return SimUnicast::Send(w.v, i, to);
 		}
@@ -147,9 +149,12 @@ inline bool DevUnicast::Send(mpz_srcptr m, const size_t i, time_t to) {
 }
 
 inline bool DevUnicast::Send(const std::vector<mpz_srcptr> &m, const size_t i, time_t to) {
-	// the reliable broadcast sends 5-tuples (ID, j, s, action, payload); action 1 = r-send
+	// the reliable broadcast sends 5-tuples (ID, j, s, action, payload); action 1 = r-send, 4 = r-request
+	if (is_bc && m.size() == 5 && mpz_cmp_ui(m[3], 4UL) == 0 && cur_phase >= 0 && cur_phase < 2) rreq[cur_phase]++;
 	if (is_bc && !nesting && m.size() == 5 && mpz_cmp_ui(m[3], 1UL) == 0 && mpz_cmp_ui(m[1], (unsigned long)j) == 0) {
-		bool first = (i == 0);   // Broadcast() loops over the recipients 0..n-1
+		// Broadcast() sends the same (ID, s) to the recipients one after the other: a new pair = a new broadcast
+		bool first = !(have_last && mpz_cmp(m[0], last_id.v) == 0 && mpz_cmp(m[2], last_s.v) == 0);
+		if (first) { have_last = true; mpz_set(last_id.v, m[0]); mpz_set(last_s.v, m[2]); }
 		bool endm = (mpz_cmp_ui(m[4], (unsigned long)n) == 0);
 		if (first) { nb++; total_bc++; W->bcasts[j]++; if (endm) nend++; }
 		if (first && active()) {
@@ -158,11 +163,14 @@ inline bool DevUnicast::Send(const std::vector<mpz_srcptr> &m, const size_t i, t
 				// insert the value `victim` before this end marker: the end marker is re-broadcast
 				// under the next sequence number, this slot carries the complaint instead
 				injected = true; fired = true;
-				Z pay(m[4]);
-				nesting = true; rbc->Broadcast(pay.v); nesting = false;
+				Z pay(m[4]), vic((unsigned long)dev.victim);
+				nesting = true;
+				for (long r = 1; r < dev.k2; r++) rbc->Broadcast(vic.v);
+				rbc->Broadcast(pay.v);
+				nesting = false;
 				repl = true; mpz_set(repl_id.v, m[0]); mpz_set(repl_s.v, m[2]); mpz_set_ui(repl_val.v, (unsigned long)dev.victim);
 			}
-			if (dev.kind == D_BC_ALTER && nb == dev.k) {
+			if ((dev.kind == D_BC_ALTER || dev.kind == D_BAD_REVEAL) && nb == dev.k) {
 				repl = true; fired = true; mpz_set(repl_id.v, m[0]); mpz_set(repl_s.v, m[2]); mpz_add_ui(repl_val.v, m[4], 1UL);
 			}
 		}
